@@ -11,6 +11,7 @@ SPEC = {
     'asan_options': ':redzone=1024',   # Devices[-1] must land in a red zone (sizeof(tInternalDevice) < 1024)
     'timeout': 1500,
     # the same generator once more under valgrind memcheck (reads of uninitialised memory, which ASan/UBSan do not see)
+    'memcheck_replay': 0,   # the generator itself runs under memcheck (next line), a replayed prefix would add nothing
     'memcheck': {'cases_quick': 60, 'cases_thorough': 500, 'variants': ['mc', 'mc_t32']},
     'trusted_base': ["the theorems are the index/bound/lifetime facts of the receive-path models (C02 fast packet; C10 ISO-TP, C18 device "
                      "list, C09 group function as they are integrated), each tied to the code by its own correspondence run",
